@@ -46,7 +46,6 @@ SSE_STUBS = [
 UF_STUBS = {
     "sqrt": [("glam::f32::math::sqrt", "shim::sqrt32"), ("glam::f64::math::sqrt", "shim::sqrt64")],
     "sin": [("glam::f32::math::sin", "shim::sin32"), ("glam::f64::math::sin", "shim::sin64")],
-    "cos": [("glam::f32::math::cos", "shim::cos32"), ("glam::f64::math::cos", "shim::cos64")],
     "sin_cos": [("glam::f32::math::sin_cos", "shim::sin_cos32"), ("glam::f64::math::sin_cos", "shim::sin_cos64")],
     "tan": [("glam::f32::math::tan", "shim::tan32"), ("glam::f64::math::tan", "shim::tan64")],
     "atan2": [("glam::f32::math::atan2", "shim::atan2_32"), ("glam::f64::math::atan2", "shim::atan2_64")],
@@ -510,6 +509,9 @@ def judge(r, props):
     r.reach = reach_ok if h.expect == "pass" else pre_ok
     bad_va = [p for p in va if p["status"] == "FAILURE"]
     bad_other = [p for p in other if p["status"] == "FAILURE"]
+    # CBMC's C-library model of fma() raises FE_* flags through feraiseexcept(), which CBMC flags as "floating-point exception":
+    # a model artefact, not a Rust panic (Rust never traps on FP flags)
+    bad_other = [p for p in bad_other if p.get("sourceLocation", {}).get("function", "") != "feraiseexcept"]
     unknown = [p for p in va + other if p["status"] not in ("SUCCESS", "FAILURE")]
     if unknown:
         r.status, r.detail = "inconclusive", "undetermined: " + unknown[0]["property"]
